@@ -52,6 +52,8 @@ class Ctx:
     def sample(self, x, limit=6):
         if len(self.samples) < limit: self.samples.append(x)
     def fail(self, signature, what, case, detail=None):
+        if detail is not None and "TIMEOUT after 0s: not run" in json.dumps(detail):
+            self.dist["not run (earlier cases did not terminate)"] += 1; return      # runner.MAX_TIMEOUTS: not a finding about this case
         self.failures.append({"signature": signature, "what": what, "case": case, "detail": detail})
     def disagree(self, corr, case, impl, model):
         self.disagreements.append({"correspondence": corr, "case": case, "impl": impl, "model": model})
